@@ -81,6 +81,11 @@ EXPECTED_ERRORS = {"insmulti_bad": ("TypeError",), "upd_raise": ("RuntimeError",
 def battery_queries(points):
     qs = []
     seen = set()
+    if len(points) > 40:
+        # big databases: probe the earliest, the latest and an evenly spaced sample of the stored instants
+        by_t = sorted(points, key=lambda p: p.t)
+        step = max(1, len(by_t) // 20)
+        points = by_t[:10] + by_t[-10:] + by_t[::step]
     for p in points:
         for d in (0, 1, -1):
             us = p.t + d
@@ -355,6 +360,9 @@ def run(res, tier, seed, shard, nshards):
                 rng = rng_for("C06", tier, seed, shard, ci, h)
                 prof = Profile()
                 prof.query_probes = False
+                if h % 5 == 2:  # hundreds of rows
+                    prof.max_rows = 400
+                    prof.min_ops, prof.max_ops = 3, 6
                 if h % 5 == 0:  # long random sequences
                     prof.min_ops = prof.max_ops = 150 if tier == "quick" else 400
                     prof.max_rows = 30
